@@ -311,10 +311,15 @@ def make_concurrent_proof(k):
         # the stored bytes are exactly those delivered by the winning writer, have the announced length and hash to the name
         # (no collision-resistance assumption: a second writer whose bytes have the same length and digest may win instead)
         verified, stored, closed, states, nwriters, calls, good, delivered = result
+        # Every writer holding a result delivered a complete copy with the right digest, and the stored bytes are exactly the bytes
+        # of one of them (when two complete within one event-loop iteration the first callback's writer is the one stored).
         ok = verified and stored is not None and sha384_hex(stored) == sha384_hex(good) and len(stored) == len(good)
+        from_a_winner = False
         for i in range(3):
-            ok = ok and (states[i] != 'result' or stored == delivered[i])
-        return ok
+            if states[i] == 'result':
+                ok = ok and sha384_hex(delivered[i]) == sha384_hex(good) and len(delivered[i]) == len(good)
+                from_a_winner = from_a_winner or stored == delivered[i]
+        return ok and from_a_winner
 
     def ensures_every_writer_shut_down(result):
         # a writer that delivered a complete correct copy holds a result (two can, when both complete within one event-loop
@@ -343,7 +348,6 @@ def make_concurrent_proof(k):
                 __doc__=f"three concurrent writers on one in-memory blob, chunk writes interleaved as {order}: the blob is verified with "
                         f"exactly the correct bytes, every other writer is shut down, completion is announced once")
     body['thorough_only'] = (k == 7)         # the single-burst interleaving has the longest path conditions: thorough tier
-    body['timeout'] = 30 if k >= 5 else None
     proof("C01", f"concurrent[{k}]")(type('Concurrent', (), body))
 
 
